@@ -157,44 +157,51 @@ def markAsEnd (p : Nat) (e : End) (a : A) : A :=
   | some .brk => { a with info := a.info.setEnd p (some e) }
   | some (.forced r t i) => { a with info := a.info.setEnd p (((End.forced r t i).mergeForced e).orElse fun _ => a.sc.end_) }
 
+/-- the end a child scope starts with: a forced end of the parent is inherited, except by functions -/
+def childEnd (kind : BlockKind) (prev : Option End) : Option End :=
+  match kind with
+  | .function => none
+  | _ => if isForcedEnd prev then prev else none
+
+/-- how `found_break` of the child is merged into the parent -/
+def mergeFb (kind : BlockKind) (afb cfb : Option (Option Id)) : Option (Option Id) :=
+  match kind with
+  | .case | .function | .loop => afb
+  | _ =>
+    if cfb == some none then some none
+    else if afb.isNone then cfb else afb
+
+/-- the parent's scope after the child has been visited (before looking at the child's end) -/
+def mergeSc (kind : BlockKind) (a c : Sc) : Sc :=
+  { end_ := a.end_, hoist := a.hoist ++ c.hoist, mayThrow := a.mayThrow || c.mayThrow,
+    foundContinue := a.foundContinue || c.foundContinue, foundBreak := mergeFb kind a.foundBreak c.foundBreak }
+
+/-- what the child's end `ce` does to the parent -/
+def childExit (kind : BlockKind) (p : Nat) (prev : Option End) (a1 : A) (ce : Option End) : A :=
+  match ce with
+  | none => a1
+  | some e =>
+    match kind with
+    | .program => a1
+    | .function =>
+      (match e with
+        | .brk => a1
+        | _ => markAsEnd p e a1).setEnd prev
+    | .case => a1
+    | .ifK => a1
+    | .loop =>
+      (match e with
+        | .forced .. => (markAsEnd p e a1).setEnd (some e)
+        | _ => (markAsEnd p e a1).setEnd prev)
+    | .label l =>
+      if a1.sc.foundBreak = some (some l) then ({ a1 with sc := { a1.sc with foundBreak := none } } : A) else a1
+    | .catch_ => markAsEnd p e a1
+    | .finally_ => markAsEnd p e a1
+
 /-- `with_child_scope`; also returns the child's final scope (closures in the code read it before returning) -/
 def withChildR (kind : BlockKind) (p : Nat) (op : A → A) (a : A) : A × Sc :=
-  let prevEnd := a.sc.end_
-  let childEnd : Option End :=
-    match kind with
-    | .function => none
-    | _ => if isForcedEnd prevEnd then prevEnd else none
-  let c := op { sc := { end_ := childEnd }, info := a.info }
-  let fb : Option (Option Id) :=
-    match kind with
-    | .case | .function | .loop => a.sc.foundBreak
-    | _ =>
-      if c.sc.foundBreak == some none then some none
-      else if a.sc.foundBreak.isNone then c.sc.foundBreak else a.sc.foundBreak
-  let sc1 : Sc := { end_ := a.sc.end_, hoist := (a.sc.hoist ++ c.sc.hoist), mayThrow := (a.sc.mayThrow || c.sc.mayThrow),
-                    foundContinue := (a.sc.foundContinue || c.sc.foundContinue), foundBreak := fb }
-  let a1 : A := { sc := sc1, info := c.info }
-  let r : A :=
-    match c.sc.end_ with
-    | none => a1
-    | some e =>
-      match kind with
-      | .program => a1
-      | .function =>
-        (match e with
-          | .brk => a1
-          | _ => markAsEnd p e a1).setEnd prevEnd
-      | .case => a1
-      | .ifK => a1
-      | .loop =>
-        (match e with
-          | .forced .. => (markAsEnd p e a1).setEnd (some e)
-          | _ => (markAsEnd p e a1).setEnd prevEnd)
-      | .label l =>
-        if a1.sc.foundBreak = some (some l) then ({ a1 with sc := { a1.sc with foundBreak := none } } : A) else a1
-      | .catch_ => markAsEnd p e a1
-      | .finally_ => markAsEnd p e a1
-  (r, c.sc)
+  let c := op { sc := { end_ := childEnd kind a.sc.end_ }, info := a.info }
+  (childExit kind p a.sc.end_ { sc := mergeSc kind a.sc c.sc, info := c.info } c.sc.end_, c.sc)
 
 def withChild (kind : BlockKind) (p : Nat) (op : A → A) (a : A) : A := (withChildR kind p op a).1
 
@@ -216,6 +223,12 @@ def exprEffect (k : EKind) (a : A) : A :=
       | .ident id => { a with sc := { a.sc with hoist := id :: a.sc.hoist } }
       | .this => a
       | .other => { a with sc := { a.sc with mayThrow := true } })
+  | _ => a
+
+/-- a `throw` statement makes the enclosing `try` block able to throw (when the scope has not ended yet) -/
+def throwEffect (a : A) : A :=
+  match a.sc.end_ with
+  | none | some .cont => { a with sc := { a.sc with mayThrow := true } }
   | _ => a
 
 /-- the tail of `visit_while_stmt`'s closure, after the body has been visited -/
@@ -243,14 +256,27 @@ def doWhileTail (testTrue : Bool) (bp : Nat) (a : A) : A :=
   else if infinite then (markAsEnd bp forcedInf a).setEnd (some forcedInf)
   else (markAsEnd bp .cont a).setEnd (some .cont)
 
+/-- after the loop scope of a `do-while`: a forced end of the body is also recorded for the statement itself -/
+def doWhileAfter (p bp : Nat) (a : A) : A :=
+  match a.info.endAt bp with
+  | some (.forced r t i) => markAsEnd p (.forced r t i) a
+  | _ => a
+
+/-- `for`: is the loop entered unconditionally and never left by an unlabelled `break` -/
+def forEnters (hasTest testTrue : Bool) (a : A) : Bool := !(a.sc.foundBreak == some none) && (!hasTest || testTrue)
+
+/-- the end such a `for` loop gets: the body's forced end, else "infinite loop" -/
+def forEnd (bp : Nat) (a : A) : End :=
+  match a.info.endAt bp with
+  | some (.forced r t i) => .forced r t i
+  | _ => forcedInf
+
+/-- the tail of `visit_for_stmt`'s closure.  (In the code: `if !has_break { .. mark_as_end(n.start(), end); forced_end = Some(end) }`
+then `if forced_end.is_none() || has_break { mark_as_end(body, Continue); end = Continue }` — the second block runs exactly
+when the first did not.) -/
 def forTail (p bp : Nat) (hasTest testTrue : Bool) (a : A) : A :=
-  let hasBreak := a.sc.foundBreak == some none
-  let e : End := match a.info.endAt bp with
-    | some (.forced r t i) => .forced r t i
-    | _ => forcedInf
-  let enters := !hasBreak && (!hasTest || testTrue)
-  let a1 := if enters then markAsEnd p e a else a
-  if !enters || hasBreak then (markAsEnd bp .cont a1).setEnd (some .cont) else a1
+  if forEnters hasTest testTrue a then markAsEnd p (forEnd bp a) a
+  else (markAsEnd bp .cont a).setEnd (some .cont)
 
 def forInOfTail (bp : Nat) (a : A) : A := (markAsEnd bp .cont a).setEnd (some .cont)
 
@@ -332,10 +358,7 @@ def visitStmt : Stmt → A → A
   | .doWhileS p body test tt, a =>
     let a := { a with info := a.info.setUnreach p (unreachableFlag a.sc .other) }
     let a := withChild .loop body.pos (fun x => doWhileTail tt body.pos (visitStmt body x)) a
-    let a := match a.info.endAt body.pos with
-      | some (.forced r t i) => markAsEnd p (.forced r t i) a
-      | _ => a
-    visitKids test a
+    visitKids test (doWhileAfter p body.pos a)
   | .forS p init update test hasTest tt body, a =>
     let a := { a with info := a.info.setUnreach p (unreachableFlag a.sc .other) }
     let a := visitKids init a
@@ -398,10 +421,7 @@ def visitStmt : Stmt → A → A
     markAsEnd p forcedRet a
   | .throw p arg, a =>
     let a := visitKids arg { a with info := a.info.setUnreach p (unreachableFlag a.sc .other) }
-    let a : A := match a.sc.end_ with
-      | none | some .cont => { a with sc := { a.sc with mayThrow := true } }
-      | _ => a
-    markAsEnd p forcedThrow a
+    markAsEnd p forcedThrow (throwEffect a)
 /-- `visit_stmts` (each statement through `visit_stmt_or_block`) -/
 def visitStmts : Stmts → A → A
   | .nil, a => a
